@@ -420,6 +420,7 @@ static OneRun runOnce(std::size_t cap, const std::vector<std::vector<Call>>& pro
   sh->q = new BQ(cap);
   ds::Options opt;
   opt.maxSteps = 5000;
+  opt.continueCurrent = true;   // a prefix is completed without preemptions
   ds::options(opt);
   ds::init(prefix);
   ds::set_step_hook(sampleHook, sh);
@@ -482,11 +483,16 @@ static std::string judge(std::size_t cap, const std::vector<std::vector<Call>>& 
     }
   return "";
 }
-// bq explore <max> <progs> <maxruns>
+// bq explore <max> <progs> <maxruns> [K]
+// Depth-first enumeration of the schedule tree. Without K: every schedule. With K: every schedule with at most K PREEMPTIONS
+// (a preemption = choosing another thread, or a time-out, at a decision where the thread that ran last is still enabled; which
+// thread runs when the current one blocks or finishes, and which sleeper a notify_one wakes, are free choices) - CHESS-style
+// preemption bounding: the completion of a prefix is non-preemptive, so siblings are generated with their exact preemption cost.
 static std::string exploreRun(const std::vector<std::string>& t)
 {
-  unsigned long long mx = 0, maxruns = 0;
-  if (t.size() != 5 || !vh::parseNat(t[2], mx) || mx == 0 || !vh::parseNat(t[4], maxruns)) return "bad-op";
+  unsigned long long mx = 0, maxruns = 0, bound = ~0ull;
+  if ((t.size() != 5 && t.size() != 6) || !vh::parseNat(t[2], mx) || mx == 0 || !vh::parseNat(t[4], maxruns)) return "bad-op";
+  if (t.size() == 6 && !vh::parseNat(t[5], bound)) return "bad-op";
   std::vector<std::vector<Call>> progs;
   {
     std::size_t i = 0;
@@ -502,15 +508,16 @@ static std::string exploreRun(const std::vector<std::string>& t)
     }
   }
   if (progs.empty() || !progs[0].empty() || progs.size() > 6) return "bad-op";
-  std::vector<std::vector<std::uint32_t>> stack;
-  stack.push_back(std::vector<std::uint32_t>{0});
+  std::vector<std::pair<std::vector<std::uint32_t>, unsigned long long>> stack;   // (prefix, preemptions spent in it)
+  stack.push_back({std::vector<std::uint32_t>{0}, 0});
   unsigned long long explored = 0, deadlocks = 0, bad = 0;
   std::size_t maxn = 0, maxlen = 0;
   std::string first;
   std::vector<std::string> outcomes;
   while (!stack.empty() && explored < maxruns)
   {
-    std::vector<std::uint32_t> prefix = stack.back();
+    std::vector<std::uint32_t> prefix = stack.back().first;
+    unsigned long long spent = stack.back().second;
     stack.pop_back();
     OneRun r = runOnce(static_cast<std::size_t>(mx), progs, prefix);
     ++explored;
@@ -530,21 +537,33 @@ static std::string exploreRun(const std::vector<std::string>& t)
     std::string oc;
     for (std::size_t k = 1; k < progs.size(); ++k) { for (auto& x : r.rets[k]) { oc += x; oc += ','; } oc += '/'; }
     if (std::find(outcomes.begin(), outcomes.end(), oc) == outcomes.end()) outcomes.push_back(oc);
-    // siblings: every other alternative of every decision made after the prefix
+    // siblings: every other alternative of every decision made after the prefix, with its preemption cost
+    std::vector<int> curAt(r.choices.size(), 0);   // thread that ran last before decision i
+    {
+      int cur = 0;
+      for (std::size_t i = 0; i < r.choices.size(); ++i) { curAt[i] = cur; if ((r.choices[i] & 3) == 0) cur = static_cast<int>(r.choices[i] >> 2); }
+    }
     for (std::size_t i = r.choices.size(); i-- > prefix.size();)
     {
       if (i >= r.alts.size()) continue;
+      bool curEnabled = false, hasRun = false;
+      for (std::uint32_t a : r.alts[i]) { if ((a & 3) == 0) { hasRun = true; if (static_cast<int>(a >> 2) == curAt[i]) curEnabled = true; } }
       for (std::uint32_t a : r.alts[i])
       {
         if (a == r.choices[i]) continue;
+        unsigned long long cost = 0;
+        if ((a & 3) == 0) cost = (curEnabled && static_cast<int>(a >> 2) != curAt[i]) ? 1 : 0;
+        else if ((a & 3) == 1) cost = hasRun ? 1 : 0;
+        if (spent + cost > bound) continue;
         std::vector<std::uint32_t> p(r.choices.begin(), r.choices.begin() + static_cast<std::ptrdiff_t>(i));
         p.push_back(a);
-        stack.push_back(p);
+        stack.push_back({p, spent + cost});
       }
     }
   }
   std::replace(first.begin(), first.end(), ' ', '_');
-  return "explored=" + std::to_string(explored) + " complete=" + (stack.empty() ? "1" : "0") + " deadlocks=" + std::to_string(deadlocks) +
+  return "explored=" + std::to_string(explored) + " bound=" + (bound == ~0ull ? std::string("inf") : std::to_string(bound)) +
+         " complete=" + (stack.empty() ? "1" : "0") + " deadlocks=" + std::to_string(deadlocks) +
          " bad=" + std::to_string(bad) + " maxn=" + std::to_string(maxn) + " outcomes=" + std::to_string(outcomes.size()) +
          " maxlen=" + std::to_string(maxlen) + " first=" + (first.empty() ? "-" : first);
 }
